@@ -95,7 +95,8 @@ static scpi_result_t h_omni(scpi_t * c) {
     int guard = 0;
     n_handler++;
     {
-        int32_t * nums = (int32_t *) malloc(2 * sizeof (int32_t));
+        int32_t * nums = (int32_t *) malloc(2 * sizeof (int32_t)), * one = (int32_t *) malloc(sizeof (int32_t)), * none = (int32_t *) malloc(0);
+        SCPI_CommandNumbers(c, one, 1, 7); SCPI_CommandNumbers(c, none, 0, 7); free(one); free(none);
         SCPI_CommandNumbers(c, nums, 2, -1); SCPI_IsCmd(c, "A:E?"); SCPI_CmdTag(c);
         free(nums);
     }
@@ -131,7 +132,7 @@ static scpi_result_t h_omni(scpi_t * c) {
 }
 
 static const scpi_command_t cmds[] = {
-    {"A", h_omni, 1}, {"A?", h_omni, 2}, {"E", h_omni, 3}, {"*A", h_omni, 4}, {"*A?", h_omni, 5}, {"A:A", h_omni, 6}, {"A:E?", h_omni, 7}, {"A#", h_omni, 8}, {"[:A]:E#?", h_omni, 9}, {"A_1:E[:A]", h_omni, 10},
+    {"A", h_omni, 1}, {"A?", h_omni, 2}, {"E", h_omni, 3}, {"*A", h_omni, 4}, {"*A?", h_omni, 5}, {"A:A", h_omni, 6}, {"A:E?", h_omni, 7}, {"A#", h_omni, 8}, {"[:A]:E#?", h_omni, 9}, {"A_1:E[:A]", h_omni, 10}, {"E#[:A#][:E#]", h_omni, 11}, {"A#:A#:E#?", h_omni, 12},
     {"*CLS", SCPI_CoreCls, 0}, {"SYSTem:ERRor[:NEXT]?", SCPI_SystemErrorNextQ, 0},
     SCPI_CMD_LIST_END
 };
